@@ -56,6 +56,9 @@ func checkCase(sub string) func(Case) error {
 			for k := range e.classes {
 				vk.S.Class(sub + ":" + k)
 			}
+			for k, n := range e.counts {
+				vk.S.ClassN(sub+":"+k, n)
+			}
 		}
 		if err != nil {
 			classify("violation")
@@ -567,6 +570,20 @@ func compositeField(t *rapid.T) string {
 	return pickStr(t, tMaps)
 }
 
+// genOps draws one operation; writes through a view are usually preceded by taking that view.
+func genOps(t *rapid.T, pInvalid float64) []Op {
+	o := genOp(t, pInvalid)
+	switch o.Op {
+	case "setidx", "append", "setkey":
+		if vk.Chance(t, 0.65) {
+			v := Op{Op: "view", A: vk.Uniform(t, 12), F: o.F, Star: vk.Chance(t, 0.5)}
+			o.A = recent
+			return []Op{v, o}
+		}
+	}
+	return []Op{o}
+}
+
 func genOp(t *rapid.T, pInvalid float64) Op {
 	sel := func() int { return vk.Uniform(t, 12) }
 	r := vk.Uniform(t, 100)
@@ -612,7 +629,7 @@ func genOp(t *rapid.T, pInvalid float64) Op {
 			v = genScalar(t, kv[1], pInvalid)
 		}
 		return Op{Op: "setkey", A: sel(), F: f, K: pv(genKey(t, kv[0], pInvalid)), V: pv(v), Star: vk.Chance(t, 0.5)}
-	case r < 91:
+	case r < 87:
 		return Op{Op: "freeze", A: sel()}
 	case r < 96:
 		return Op{Op: "rt", A: sel(), B: vk.Uniform(t, 4), I: vk.Uniform(t, 2), Star: vk.Chance(t, 0.5)}
@@ -627,6 +644,67 @@ func genOp(t *rapid.T, pInvalid float64) Op {
 		return o
 	}
 }
+
+// genScenario scripts the aliasing patterns the property names (copy, view, assignee, element,
+// default value) with drawn participants, so that they occur often; everything else is left to
+// the surrounding random operations.
+func genScenario(t *rapid.T) []Op {
+	a, b := vk.Uniform(t, 6), vk.Uniform(t, 6)
+	last := recent
+	scalarSet := func() Op {
+		f := pickStr(t, []string{"i", "s", "u", "x"})
+		k := tKinds[f]
+		return Op{Op: "set", A: last, F: f, V: pv(genScalar(t, k, 0)), Star: vk.Chance(t, 0.5)}
+	}
+	freeze := func(cands ...int) Op { return Op{Op: "freeze", A: cands[vk.Uniform(t, len(cands))]} }
+	var ops []Op
+	switch vk.Uniform(t, 7) {
+	case 0: // o.sub = m.sub, freeze one side, write through the other side's view
+		f := pickStr(t, []string{"sub", "sub", "leaf"})
+		ops = []Op{{Op: "view", A: a, F: f}, {Op: "set", A: b, F: f, V: pv(vHandle(last)), Star: true}, freeze(a, b, last),
+			{Op: "view", A: pickInt(t, a, b), F: f}, scalarSet()}
+	case 1: // c = M(m), freeze m (before or after), write through a view of c
+		slot := vk.Uniform(t, 4)
+		f := compositeField(t)
+		ops = []Op{{Op: "copy", A: a, B: slot}, freeze(a), {Op: "view", A: vk.Uniform(t, 6), F: f}}
+		if vk.Chance(t, 0.5) {
+			ops[0], ops[1] = ops[1], ops[0]
+		}
+		switch {
+		case tElem[f] != "":
+			ops = append(ops, Op{Op: "append", A: last, F: f, V: pv(genElem(t, f, 2, 0))})
+		case f == "sub" || f == "leaf":
+			ops = append(ops, scalarSet())
+		default:
+			kv := tMapKV[f]
+			v := vDict()
+			if kv[1] != "msg" {
+				v = genScalar(t, kv[1], 0)
+			}
+			ops = append(ops, Op{Op: "setkey", A: last, F: f, K: pv(genKey(t, kv[0], 0)), V: pv(v)})
+		}
+	case 2: // repeated messages: b.rt = a.rt copies the list but shares the elements
+		ops = []Op{{Op: "view", A: a, F: "rt"}, {Op: "set", A: b, F: "rt", V: pv(vHandle(last))}, freeze(a, b),
+			{Op: "view", A: pickInt(t, a, b), F: "rt"}, {Op: "elem", A: last, F: "rt", I: vk.Uniform(t, 3) - 1}, scalarSet()}
+	case 3: // map of messages
+		ops = []Op{{Op: "view", A: a, F: "mst"}, {Op: "set", A: b, F: "mst", V: pv(vHandle(last))}, freeze(a, b),
+			{Op: "view", A: pickInt(t, a, b), F: "mst"}, {Op: "elem", A: last, F: "mst", K: pv(vStr("a"))}, scalarSet()}
+	case 4: // the frozen default of an unset message field, assigned elsewhere
+		ops = []Op{{Op: "set", A: a, F: "sub", V: pv(vNone)}, {Op: "view", A: a, F: "sub"}, {Op: "set", A: b, F: "sub", V: pv(vHandle(last))},
+			{Op: "view", A: b, F: "sub"}, scalarSet()}
+	case 5: // a repeated/map field assigned from its own view
+		f := pickStr(t, append(append([]string{}, tLists...), tMaps...))
+		ops = []Op{{Op: "view", A: a, F: f}, {Op: "set", A: a, F: f, V: pv(vHandle(last)), Star: vk.Chance(t, 0.5)}}
+	default: // freeze, then try every kind of write through views taken before
+		ops = []Op{{Op: "view", A: a, F: "ri"}, {Op: "view", A: a, F: "msi"}, {Op: "view", A: a, F: "sub"}, freeze(a, last, last+1, last+2),
+			{Op: "append", A: last + 2, F: "ri", V: pv(vI(1))}, {Op: "setidx", A: last + 2, F: "ri", I: 0, V: pv(vI(2))},
+			{Op: "setkey", A: last + 1, F: "msi", K: pv(vStr("z")), V: pv(vI(3))}, {Op: "set", A: last, F: "i", V: pv(vI(4))},
+			{Op: "set", A: a, F: "i", V: pv(vI(5))}, {Op: "setf", A: a, F: "s", V: pv(vStr("q"))}}
+	}
+	return ops
+}
+
+func pickInt(t *rapid.T, xs ...int) int { return xs[vk.Uniform(t, len(xs))] }
 
 func TestPropHistory(t *testing.T) {
 	maxOps := vk.N(30, 60)
@@ -644,8 +722,12 @@ func TestPropHistory(t *testing.T) {
 				vStr("mst"), vDict(vStr("a"), vDict(vStr("i"), vI(3)))))})
 		}
 		n := 3 + vk.Uniform(t, maxOps)
-		for i := 0; i < n; i++ {
-			ops = append(ops, genOp(t, pInvalid))
+		for len(ops) < n {
+			if vk.Chance(t, 0.12) {
+				ops = append(ops, genScenario(t)...)
+			} else {
+				ops = append(ops, genOps(t, pInvalid)...)
+			}
 		}
 		return Case{Ops: ops}
 	})
